@@ -19,6 +19,8 @@ type TestBed struct {
 	Secret *characteristic.Identify           // bool, pw only (on every accessory's info service too)
 	RO     *characteristic.CurrentTemperature // float, pr ev
 	All    []*accessory.Accessory
+	// Switches are the extra bridged switches (identical structure: same iids on different accessories)
+	Switches []*accessory.Switch
 }
 
 // NewTestBed builds the bridge; n extra switches are bridged to grow /accessories.
@@ -39,6 +41,7 @@ func NewTestBed(name string, nSwitches int) *TestBed {
 	for i := 0; i < nSwitches; i++ {
 		sw := accessory.NewSwitch(accessory.Info{Name: fmt.Sprintf("%s switch %d", name, i)})
 		tb.All = append(tb.All, sw.Accessory)
+		tb.Switches = append(tb.Switches, sw)
 	}
 	return tb
 }
